@@ -30,6 +30,8 @@ def cexp(e):
         return "(Grad %s %s)" % (cexp(e[1]), cexp(e[2]))
     if t == "deriv":
         return "(Deriv %s %s)" % (cexp(e[1]), cexp(e[2]))
+    if t == "thread":          # running a sub-expression on another thread does not change its meaning
+        return cexp(e[1])
     if t == "fail":
         return "Fail"
     if t == "try":
@@ -134,3 +136,14 @@ def closure_family():
                 progs.append([m[0], ["app2", "add", ["var", 0], [m[1], ["app2", "mul", ["var", 0], [m[2], body, ["const", 3]]],
                                                                   ["const", 2]]], ["const", 1]])
     return progs
+
+
+def threaded(e, rng, p=0.5):
+    """wrap a random subset of the differential operators of e in a worker thread"""
+    if not isinstance(e, list):
+        return e
+    r = [threaded(x, rng, p) if isinstance(x, list) and x and isinstance(x[0], str) and x[0] in
+         ("var", "const", "app1", "app2", "let", "ifpos", "grad", "deriv", "fail", "try") else x for x in e]
+    if e[0] in ("grad", "deriv") and rng.random() < p:
+        return ["thread", r]
+    return r
